@@ -12,6 +12,7 @@ import DDS.Props.NonVacuity
 import DDS.Props.C06GenPag
 import DDS.Props.C09GenStore
 import DDS.Props.C12GenIter
+import DDS.Props.C19GenProto
 
 namespace DDS.Props.NonVacuityGen
 
@@ -641,5 +642,120 @@ example (fuel : Nat) : ∃ s,
       (Or.inl (sortedInputs_nonneg_of (4 / 3) nnXs nnXs_nonneg)) nnL hl nnL_exact hz fuel⟩
 
 end C12
+
+/-! ## C19GenProto: the theorems quantify over EVERY instance `[MOps F64]`, and the project declares none — so an
+    instance is exhibited here (the exact-float operations of the model where they exist, the identity for the
+    transcendental functions, which the conversions never call), together with a mapping that passes its guard -/
+section C19
+open DDS.GenProtoSketch DDS.Gen.MappingProto DDS.Gen.MappingFromProto DDS.Props.C19GenProto
+
+/-- an instance of the float operations over the exact float model -/
+@[reducible] def demoOps : MOps F64 where
+  add := F64.add
+  sub := F64.sub
+  mul := F64.mul
+  div := F64.div
+  neg := F64.neg
+  ofInt := fun i => .fin (i : Rat)
+  ofRat := fun q => .fin q
+  lt := F64.lt
+  le := F64.le
+  log := id
+  exp := id
+  log2 := id
+  exp2 := id
+  pow := fun a _ => a
+  cbrt := id
+  sqrt := id
+  floor := id
+  trunc := fun _ => 0
+  exponentOf := id
+  significandPlusOne := id
+  buildFloat := fun _ a => a
+  ln2 := .fin 1
+  expOverflow := .fin 1
+  minNormal := .fin 1
+
+attribute [local instance] demoOps
+
+/-- the instance meets `LeOne` (the only thing the `…_model` theorems ask of it) -/
+theorem demoOps_leOne : LeOne := by
+  intro x
+  show F64.le x (.fin ((1 : Int) : Rat)) = F64.le x (.fin 1)
+  rw [Int.cast_one]
+
+/-- gamma = 1.02 (nearest float), offset 0; the other three fields are not read by the conversions -/
+def g102 : F64 := F64.ofBits 0x3FF051EB851EB852
+
+theorem g102_guard : MOps.le g102 (MOps.ofInt 1 : F64) = false := by
+  rw [demoOps_leOne]; exact C19.m102_valid.gammaGtOne
+
+def mLog : Gen.Mapping.LogarithmicMapping F64 := ⟨g102, .fin 0, .fin 1, .fin (1 / 1000), .fin 1000⟩
+def mLin : Gen.Mapping.LinearlyInterpolatedMapping F64 := ⟨g102, .fin 0, .fin 1, .fin (1 / 1000), .fin 1000⟩
+def mCub : Gen.Mapping.CubicallyInterpolatedMapping F64 := ⟨g102, .fin 0, .fin 1, .fin (1 / 1000), .fin 1000⟩
+
+/-- `log_proto_roundtrip` -/
+example (fuel : Nat) : ∃ m', FromProto fuel (some (LogarithmicMapping.ToProto mLog)) =
+      .ok (IndexMapping.LogarithmicMapping m', GoErr.nil) ∧
+    m'.gamma = g102 ∧ m'.indexOffset = .fin 0 ∧
+    Gen.MapId.LogarithmicMapping.Equals (asIdLog m') (asIdLog mLog) = true ∧
+    Gen.MapId.LogarithmicMapping.Equals (asIdLog mLog) (asIdLog m') = true :=
+  log_proto_roundtrip fuel mLog _ 0 g102_guard C19.gamma102_eq rfl
+
+/-- `lin_proto_roundtrip` -/
+example (fuel : Nat) : ∃ m', FromProto fuel (some (LinearlyInterpolatedMapping.ToProto mLin)) =
+      .ok (IndexMapping.LinearlyInterpolatedMapping m', GoErr.nil) ∧
+    m'.gamma = g102 ∧ m'.indexOffset = .fin 0 ∧
+    Gen.MapId.LinearlyInterpolatedMapping.Equals (asIdLin m') (asIdLin mLin) = true ∧
+    Gen.MapId.LinearlyInterpolatedMapping.Equals (asIdLin mLin) (asIdLin m') = true :=
+  lin_proto_roundtrip fuel mLin _ 0 g102_guard C19.gamma102_eq rfl
+
+/-- `cub_proto_roundtrip` -/
+example (fuel : Nat) : ∃ m', FromProto fuel (some (CubicallyInterpolatedMapping.ToProto mCub)) =
+      .ok (IndexMapping.CubicallyInterpolatedMapping m', GoErr.nil) ∧
+    m'.gamma = g102 ∧ m'.indexOffset = .fin 0 ∧
+    Gen.MapId.CubicallyInterpolatedMapping.Equals (asIdCub m') (asIdCub mCub) = true ∧
+    Gen.MapId.CubicallyInterpolatedMapping.Equals (asIdCub mCub) (asIdCub m') = true :=
+  cub_proto_roundtrip fuel mCub _ 0 g102_guard C19.gamma102_eq rfl
+
+/-- `log/lin/cub_proto_roundtrip_model`: `LeOne` and the bit-pattern hypotheses hold together -/
+example (fuel : Nat) : ∃ r, FromProto fuel (some (LogarithmicMapping.ToProto mLog)) = .ok (r, GoErr.nil) ∧
+    idOf r = some C19.m102 ∧
+    Proto.mappingFromProto (some (pbOfGo (LogarithmicMapping.ToProto mLog))) = .ok C19.m102 :=
+  log_proto_roundtrip_model demoOps_leOne fuel mLog C19.m102_valid.gammaBits C19.m102_valid.offsetBits
+    C19.m102_valid.gammaGtOne
+
+example (fuel : Nat) : ∃ r, FromProto fuel (some (LinearlyInterpolatedMapping.ToProto mLin)) = .ok (r, GoErr.nil) ∧
+    idOf r = some (idLin mLin) ∧
+    Proto.mappingFromProto (some (pbOfGo (LinearlyInterpolatedMapping.ToProto mLin))) = .ok (idLin mLin) :=
+  lin_proto_roundtrip_model demoOps_leOne fuel mLin C19.m102_valid.gammaBits C19.m102_valid.offsetBits
+    C19.m102_valid.gammaGtOne
+
+example (fuel : Nat) : ∃ r, FromProto fuel (some (CubicallyInterpolatedMapping.ToProto mCub)) = .ok (r, GoErr.nil) ∧
+    idOf r = some (idCub mCub) ∧
+    Proto.mappingFromProto (some (pbOfGo (CubicallyInterpolatedMapping.ToProto mCub))) = .ok (idCub mCub) :=
+  cub_proto_roundtrip_model demoOps_leOne fuel mCub C19.m102_valid.gammaBits C19.m102_valid.offsetBits
+    C19.m102_valid.gammaGtOne
+
+/-- `proto_roundtrip_inf_not_equals`, `proto_rejects_gamma_le_one` (gamma = 1/2 with the LINEAR tag),
+    `proto_rejects_unknown_interpolation` (tag 7) under that instance -/
+example (fuel : Nat) : ∃ m', FromProto fuel (some (LogarithmicMapping.ToProto ⟨.pinf, .fin 0, .fin 1, .fin 1, .fin 1⟩)) =
+      .ok (IndexMapping.LogarithmicMapping m', GoErr.nil) ∧
+    m'.gamma = .pinf ∧ m'.indexOffset = .fin 0 ∧
+    Gen.MapId.LogarithmicMapping.Equals (asIdLog m') (asIdLog ⟨.pinf, .fin 0, .fin 1, .fin 1, .fin 1⟩) = false :=
+  proto_roundtrip_inf_not_equals demoOps_leOne fuel _ _ _
+
+example (fuel : Nat) : ∃ r, FromProto fuel
+    (some { (LinearlyInterpolatedMapping.ToProto mLin) with Gamma := .fin (1 / 2) }) = .ok (r, errGamma) :=
+  proto_rejects_gamma_le_one demoOps_leOne fuel _ (Or.inr (Or.inl rfl)) (by decide +kernel)
+
+example (fuel : Nat) :
+    FromProto fuel (some { (LogarithmicMapping.ToProto mLog) with Interpolation := 7#32 })
+      = .ok (IndexMapping.nil, errInterpolation) ∧
+    Proto.mappingFromProto (some (pbOfGo { (LogarithmicMapping.ToProto mLog) with Interpolation := 7#32 }))
+      = .error .badInterpolation :=
+  proto_rejects_unknown_interpolation fuel _ (Or.inr (by decide))
+
+end C19
 
 end DDS.Props.NonVacuityGen
